@@ -182,3 +182,66 @@ class InternalHandleRequest(Contract):
     def device_outside_protocol_or_repair(g, old): return field(old.self, "_comm_issue") or classify(g) == K_OTHER
     def only_during_repair(old): return field(old.self, "_comm_issue")
     raises = {PERR: Exc(args=[STR_], post=[device_outside_protocol_or_repair]), PINT: Exc(post=[only_during_repair])}
+
+
+# ---- one element of a key id (added after seed C02-4: the path grammar above stays an assumed contract, but the element
+# parser it is made of is verified against the documented element grammar: decimal digits, optionally ONE trailing quote)
+from pyvc import libmodels as _LM
+from pyvc.terms import INT as _INT
+_isdecimal = _tm.FunDecl("str.isdecimal", [_STR], _BOOL)
+
+
+def _isdecimal_of(st, s):
+    """str.isdecimal as an uninterpreted predicate (exact on concrete strings); what is assumed of it (A-LIB), for every
+    term it is applied to on the code side AND on the specification side: a string of decimal characters is non-empty
+    and is an integer literal in base 10 with a non-negative value"""
+    from pyvc.values import to_term, Sym, is_sym
+    if not is_sym(s):
+        return s.isdecimal()
+    t = to_term(s)
+    st.assume(_tm.Implies(_isdecimal(t), _tm.And(_tm.Lt(_tm.Int(0), _tm.Len(t)), _LM.int_literal(t, _tm.Int(10)),
+                                                  _tm.Le(_tm.Int(0), _LM.int_of_str(t, _tm.Int(10))))))
+    return Sym("bool", _isdecimal(t))
+
+
+@_LM.register_external("str.isdecimal")
+def _str_isdecimal(ip, st, args, kwargs):
+    (s,) = args
+    yield st, _isdecimal_of(st, s)
+
+
+@native
+def isdecimal(ip, st, s):
+    return _isdecimal_of(st, s)
+
+
+@native
+def int10(ip, st, s):
+    from pyvc.values import to_term, as_value
+    return as_value("int", _LM.int_of_str(to_term(s), _tm.Int(10)))
+
+
+@contract("comm/bip32.py", "BIP32Element.__init__", serves=["C02"])
+class ElementInit(Contract):
+    self_spec = OBJ("comm.bip32:BIP32Element")
+    params = dict(spec=STR_)
+    pure = True
+    modifies_self = dict(_index=INT_)
+
+    def decimal_with_at_most_one_quote(self, spec):
+        n = len(spec)
+        if n == 0:
+            return False
+        if spec[n - 1] == "'":
+            return isdecimal(spec[:n - 1]) and int10(spec[:n - 1]) < 2147483648 and self._index == 2147483648 + int10(spec[:n - 1])
+        return isdecimal(spec) and int10(spec) < 2147483648 and self._index == int10(spec)
+    ensures = [decimal_with_at_most_one_quote]
+
+    def not_an_element(spec):
+        n = len(spec)
+        if n == 0:
+            return True
+        if spec[n - 1] == "'":
+            return not isdecimal(spec[:n - 1]) or int10(spec[:n - 1]) >= 2147483648
+        return not isdecimal(spec) or int10(spec) >= 2147483648
+    raises = {"ValueError": Exc(args=[STR_], post=[not_an_element])}
